@@ -506,16 +506,17 @@ func (f *Frame) applyContractFn(fc *FuncContract, callee *ssa.Function, name str
 	if clauses.modAll {
 		heap = f.havocAll(st.Heap)
 		for _, k := range fc.Keeps {
-			if fc.Trusted == "" && fc.Kind != "interface" {
-				f.fail("keeps is only allowed on trusted and interface contracts (%s)", name)
-				break
-			}
 			t, err := f.w.ResolveType(k, fc.ScopePkg)
 			if err != nil {
 				f.fail("keeps %s: %v", k, err)
 				continue
 			}
-			if fc.Trusted == "" {
+			if _, isStruct := t.Underlying().(*types.Struct); !isStruct && fc.Trusted == "" {
+				f.fail("keeps of a non-struct type is only allowed on trusted contracts (%s)", name)
+				break
+			}
+			// (for a verified function the clause is checked at its exits, see frameObligation)
+			if fc.Trusted == "" && fc.Kind == "interface" {
 				vc.Trusted["interface contract "+name+": objects of type "+k+" are left unchanged (assumed of every implementation)"] = true
 			}
 			if stt, ok := t.Underlying().(*types.Struct); ok {
@@ -692,12 +693,14 @@ type effContract struct {
 	defines                     []scopedClause
 	requires, ensures, modifies []scopedClause
 	modAll, pure, noPanic       bool
+	keeps                       []string // with modAll: struct types whose objects stay unchanged
+	scopePkg                    string
 }
 
 // effectiveContract merges a function's own clauses with the functype contract
 // it refines.
 func (w *World) effectiveContract(fc *FuncContract) *effContract {
-	ec := &effContract{modAll: fc.ModAll, pure: fc.Pure, noPanic: fc.NoPanic}
+	ec := &effContract{modAll: fc.ModAll, pure: fc.Pure, noPanic: fc.NoPanic, keeps: fc.Keeps, scopePkg: fc.ScopePkg}
 	add := func(c *FuncContract) {
 		for _, r := range c.Requires {
 			ec.requires = append(ec.requires, scopedClause{r, c.ScopePkg})
